@@ -896,12 +896,12 @@ func checkNorm(c normCase) ev.Outcome {
 
 func init() {
 	ev.Define("r2_rect", ev.Options{
-		Rule: "pairs of valid r2 rectangles (both axes empty or neither; canonical and non-canonical empties, points, segments) with coordinates as in r1_interval (|v| ≤ 1e6), 1-3 points, per-axis margins {0, −length/2, uniform ±3}. Oracle: product of two exact line models. ContainsPoint/InteriorContainsPoint on vertices, centres, points; Contains, InteriorContains, Intersects, InteriorIntersects as set relations (both orders); Union = AddRect = bounding rectangle; Intersection = common points; Expanded monotone per axis, empty only if the operand is empty or a margin is negative; AddPoint, ClampPoint, RectFromPoints, RectFromCenterSize, Vertices/VertexIJ/Lo/Hi/Center; all results valid. Non-trivial = an operand is empty/degenerate or the operands share a coordinate.",
-		Quick: 100000, Thorough: 4000000}, genR2, checkR2)
+		Rule:  "pairs of valid r2 rectangles (both axes empty or neither; canonical and non-canonical empties, points, segments) with coordinates as in r1_interval (|v| ≤ 1e6), 1-3 points, per-axis margins {0, −length/2, uniform ±3}. Oracle: product of two exact line models. ContainsPoint/InteriorContainsPoint on vertices, centres, points; Contains, InteriorContains, Intersects, InteriorIntersects as set relations (both orders); Union = AddRect = bounding rectangle; Intersection = common points; Expanded monotone per axis, empty only if the operand is empty or a margin is negative; AddPoint, ClampPoint, RectFromPoints, RectFromCenterSize, Vertices/VertexIJ/Lo/Hi/Center; all results valid. Non-trivial = an operand is empty/degenerate or the operands share a coordinate.",
+		Quick: 100000, Thorough: 6000000}, genR2, checkR2)
 	ev.Define("latlng_rect", ev.Options{
-		Rule: "pairs of valid s2.Rect (Empty, Full, latitude from {0,±π/4,±π/2}±ulps/related/uniform, longitude as in s1_pair incl. inverted, ±π, full), 1-3 LatLng probes (first valid; later ones sometimes just outside the valid range), a size for RectFromCenterSize in {0, tiny, half, full ± 1 ulp, 2× full, uniform}. Oracle: line model × circle model. IsValid/IsEmpty/IsFull/IsPoint, vertices contained, ContainsLatLng on the complete grid of all occurring latitudes × longitudes (both ±π), Contains/Intersects both orders, Union ⊇ both with exact latitude hull and empty operand neutral, Intersection ⊇ common points and empty iff no common point, PolarClosure, AddPoint (valid and invalid points), RectFromLatLng is the single point, RectFromCenterSize contains centre and quarter-size probes and is full in longitude iff size ≥ 2π (1e-14 band), ContainsPoint∘PointFromLatLng for probes ≥1e-13 from every edge; all results valid. Non-trivial = longitude endpoint at ±π / shared / inverted / empty / full, or a latitude endpoint at a pole.",
-		Quick: 120000, Thorough: 5000000}, genLL, checkLL)
+		Rule:  "pairs of valid s2.Rect (Empty, Full, latitude from {0,±π/4,±π/2}±ulps/related/uniform, longitude as in s1_pair incl. inverted, ±π, full), 1-3 LatLng probes (first valid; later ones sometimes just outside the valid range), a size for RectFromCenterSize in {0, tiny, half, full ± 1 ulp, 2× full, uniform}. Oracle: line model × circle model. IsValid/IsEmpty/IsFull/IsPoint, vertices contained, ContainsLatLng on the complete grid of all occurring latitudes × longitudes (both ±π), Contains/Intersects both orders, Union ⊇ both with exact latitude hull and empty operand neutral, Intersection ⊇ common points and empty iff no common point, PolarClosure, AddPoint (valid and invalid points), RectFromLatLng is the single point, RectFromCenterSize contains centre and quarter-size probes and is full in longitude iff size ≥ 2π (1e-14 band), ContainsPoint∘PointFromLatLng for probes ≥1e-13 from every edge; all results valid. Non-trivial = longitude endpoint at ±π / shared / inverted / empty / full, or a latitude endpoint at a pole.",
+		Quick: 120000, Thorough: 8000000}, genLL, checkLL)
 	ev.Define("angle_normalize", ev.Options{
-		Rule: "latitude/longitude values from {kπ/2 ± 0..2 ulps (|k| ≤ 8), kπ ± ulps (|k| ≤ 1e6), critical grid, uniform ±10, uniform ±1e6}. LatLng.IsValid matches the documented range; LatLng.Normalized is valid, leaves valid input unchanged, clamps latitude, keeps longitude modulo (float64) 2π exactly (big.Float); Angle.Normalized lies in (-π,π], is the same angle modulo 2π and is the identity on (-π,π]. Non-trivial = input outside the valid range or exactly on ±π / ±π/2.",
+		Rule:  "latitude/longitude values from {kπ/2 ± 0..2 ulps (|k| ≤ 8), kπ ± ulps (|k| ≤ 1e6), critical grid, uniform ±10, uniform ±1e6}. LatLng.IsValid matches the documented range; LatLng.Normalized is valid, leaves valid input unchanged, clamps latitude, keeps longitude modulo (float64) 2π exactly (big.Float); Angle.Normalized lies in (-π,π], is the same angle modulo 2π and is the identity on (-π,π]. Non-trivial = input outside the valid range or exactly on ±π / ±π/2.",
 		Quick: 40000, Thorough: 2000000}, genNorm, checkNorm)
 }
